@@ -91,7 +91,8 @@ SloppyTrusted(initId, tgtId) ==
 
 HasBody(m) == m \in {"POST", "PUT"}
 
-NoReq == [host |-> "", trusted |-> TRUE, creds |-> FALSE, method |-> "", body |-> "no", path |-> ""]
+\* prev / last keep only what the state invariants need; host and path live in the history
+NoReq == [trusted |-> TRUE, creds |-> FALSE, method |-> "", body |-> "no"]
 
 VARIABLES
   sc,       \* scenario: [init, method, max]
@@ -125,10 +126,11 @@ Send ==
   /\ IF SpellTab[cur].kind = "bad"
        THEN /\ result' = "badurl" /\ phase' = "done"
             /\ UNCHANGED <<prev, last, sent>>
-       ELSE LET r == [host |-> SpellTab[cur].canon, trusted |-> Trusted(sc.init, cur),
+       ELSE LET r == [trusted |-> Trusted(sc.init, cur), creds |-> creds, method |-> method, body |-> body]
+                h == [host |-> SpellTab[cur].canon, trusted |-> Trusted(sc.init, cur),
                       creds |-> creds, method |-> method, body |-> body,
                       path |-> PathOf(Len(hops), pathOk)] IN
-            /\ prev' = last /\ last' = r /\ sent' = Append(sent, r)
+            /\ prev' = last /\ last' = r /\ sent' = Append(sent, h)
             /\ phase' = "wait" /\ UNCHANGED result
   /\ UNCHANGED <<sc, cur, pathOk, method, body, creds, nredir, lastSt, hops>>
 
@@ -220,4 +222,23 @@ HistInv ==
   /\ \A i \in 2..Len(sent) : hops[i-1].status = 303 => (sent[i].method \in {"GET", "HEAD"} /\ sent[i].body = "no")
 
 MCView == <<sc, cur, pathOk, method, body, creds, nredir, phase, result, lastSt, prev, last, Len(hops)>>
+
+----------------------------------------------------------------------------
+\* menus for the .cfg files (CONSTANT <- definition)
+AllInits == { id \in SpellIds : SpellTab[id].kind = "ok" }
+AllTargets == SpellIds
+AllStatuses == {301, 302, 303, 307, 308}
+AllForms == {"abs", "absuc", "noscheme", "hostrel", "rel"}
+AllMethods == {"GET", "HEAD", "POST", "PUT"}
+\* reduced menus (exhaustive two-hop chains; quick model check)
+KeyInits == {"same", "upport", "sub", "ip6"}
+KeyTargets == {"same", "port", "sub", "subsub", "prefix", "suffix", "atevil", "other", "ip6port", "ip6look", "pctdot"}
+KeyStatuses == {302, 303, 307}
+KeyForms == {"abs", "noscheme", "rel"}
+KeyMethods == {"GET", "POST"}
+\* one long chain for the fixed limit (16) of the Get / Post helpers
+LoopInits == {"same"}
+LoopTargets == {"sub"}
+LoopStatuses == {307}
+LoopForms == {"abs"}
 =============================================================================
